@@ -51,7 +51,7 @@ func c30PrefixConfigPart(rep *mc.Report) {
 		rep.Infra(err.Error())
 		return
 	}
-	universe := c30Strings(0, 3) // 15 candidate prefixes, "" included
+	universe := append(c30Strings(1, 3), "") // 15 candidate prefixes, "" (listed last, so that small examples come without it) included
 	maxList := 3
 	names := c30Strings(1, mc.Pick(4, 5))
 	bitAlphabet := []string{"view_default", "edit_default", "view_prefix.ab", "edit_prefix.ab", "edit_metric.ba", "edit_metric.abb"}
